@@ -117,6 +117,20 @@ pub async fn add_node(
         .map(|node| node.number)
         .max()
         .unwrap_or(0);
+    // Service numbers are `u16`: refuse a request that would number a service past the end of
+    // the range rather than overflow in the arithmetic below (`current + count`, `current + 1`
+    // and the `node_number += 1` after the last service).
+    if current_node_count
+        .checked_add(options.count.unwrap_or(1))
+        .and_then(|target| target.checked_add(1))
+        .is_none()
+    {
+        error!("Cannot add services numbered after {current_node_count}: out of service numbers");
+        return Err(eyre!(
+            "Cannot add {} service(s) after service number {current_node_count}: out of service numbers",
+            options.count.unwrap_or(1)
+        ));
+    }
     let target_node_count = current_node_count + options.count.unwrap_or(1);
 
     let mut node_number = current_node_count + 1;
